@@ -1,1 +1,86 @@
-//! Kani harnesses compiled as a child module of rustzx-core/src/zx/sound/ay.rs (cfg(kani) only).
+//! Kani harnesses compiled as a child module of rustzx-core/src/zx/sound/ay.rs (cfg(kani), feature ay).
+//! Properties C18 (port read-back, register numbers modulo 16) and C07 (AY port decoding).
+#![allow(dead_code)]
+use super::*;
+use crate::verif_hooks::FbCtx;
+use crate::zx::controller::verif_hooks as ch;
+use crate::zx::sound::mixer::verif_hooks as mh;
+use rustzx_z80::Z80Bus;
+
+fn sqrt_identity(x: f64) -> f64 {
+    x
+}
+
+static mut GEN_LOG: [(u8, u8); 4] = [(0xFF, 0xFF); 4];
+static mut GEN_LOG_LEN: usize = 0;
+
+/// replacement for the sound generator's register write: records what reaches the generator
+fn logging_write_register(_ay: &mut AymPrecise, address: u8, value: u8) {
+    unsafe {
+        if GEN_LOG_LEN < 4 {
+            GEN_LOG[GEN_LOG_LEN] = (address, value);
+        }
+        GEN_LOG_LEN += 1;
+    }
+}
+
+fn any_port(a15: bool, a14: bool) -> u16 {
+    let p: u16 = kani::any();
+    // A1 = 0, odd (not the ULA), A15/A14 as requested
+    kani::assume(p & 0x0002 == 0 && p & 1 == 1 && (p & 0x8000 != 0) == a15 && (p & 0x4000 != 0) == a14);
+    p
+}
+
+// @harness
+// @prop C18 C07
+// @tier quick
+// @features sound,ay
+// @timeout 1500
+// @fn ZXController::write_io (AY select and data arms); ZXController::read_io (AY arm); select_ay_reg; write_ay_port; read_ay_port; ZXAyChip::select_reg; ZXAyChip::write; ZXAyChip::read; ZXAyChip::new
+// @sym machine, three (register number, value) writes and a final register selection, all through fully symbolic port addresses of the decode classes A15=A14=1,A1=0 (select/read-back) and A15=1,A14=0,A1=0 (data); frame time
+// @assert reading the AY data port returns the value last written to the selected register, register numbers taken modulo 16 (never-written registers read 0); every data write reaches the sound generator as (register number mod 16, value) in order; AY port cycles never touch the border colour or the paging latch
+// @bound 3 register writes + 1 read-back
+// @stub libm::sqrt -> identity (unsupported SIMD intrinsic); <AymPrecise as AymBackend>::write_register -> logger (generator decode is c18_register_decode in the aym crate); ZXMixer::process -> no-op; ZXScreen::process_clocks -> no-op
+// @replay solver-only
+#[kani::proof]
+#[kani::unwind(17)]
+#[kani::stub(libm::sqrt, sqrt_identity)]
+#[kani::stub(<aym::AymPrecise as aym::AymBackend>::write_register, logging_write_register)]
+#[kani::stub(crate::zx::sound::mixer::ZXMixer::process, mh::noop_process)]
+#[kani::stub(crate::zx::video::screen::ZXScreen::process_clocks, ch::noop_screen_clocks)]
+fn c18_ay_port_readback() {
+    let m = crate::emulator::verif_hooks::any_machine();
+    let mut c = ch::mk_controller(m, FbCtx { wx: 0, wy: 0 }, false, false);
+    let t: usize = kani::any();
+    kani::assume(t < ch::spec_frame_len(m));
+    c.frame_clocks = t;
+    unsafe {
+        GEN_LOG_LEN = 0;
+    }
+    let mut model = [0u8; 16];
+    let mut i = 0;
+    let mut sent = [(0u8, 0u8); 3];
+    while i < 3 {
+        let (reg, val): (u8, u8) = (kani::any(), kani::any());
+        c.write_io(any_port(true, true), reg);
+        c.write_io(any_port(true, false), val);
+        model[(reg & 15) as usize] = val;
+        sent[i] = (reg & 15, val);
+        i += 1;
+    }
+    let r: u8 = kani::any();
+    c.write_io(any_port(true, true), r);
+    let got = c.read_io(any_port(true, true));
+    kani::assert(got == model[(r & 15) as usize], "c18.ports.readback_is_last_value_written_mod_16");
+    unsafe {
+        kani::assert(GEN_LOG_LEN == 3, "c18.ports.every_data_write_reaches_generator");
+        kani::assert(GEN_LOG[0] == sent[0] && GEN_LOG[1] == sent[1] && GEN_LOG[2] == sent[2], "c18.ports.generator_gets_register_and_value");
+    }
+    kani::assert(u8::from(c.border_color) == 0, "c07.ay.border_untouched");
+    if m == crate::zx::machine::ZXMachine::Sinclair128K {
+        kani::assert(c.read_7ffd() == 0, "c07.ay.latch_untouched");
+    }
+    kani::cover!(r & 0xF0 != 0 && got != 0, "register number wraps modulo 16");
+    kani::cover!(sent[0].0 == sent[2].0 && sent[0].1 != sent[2].1 && r & 15 == sent[0].0, "overwritten register");
+    kani::cover!(sent[1].0 == 14, "I/O port register");
+}
